@@ -37,7 +37,7 @@ func init() {
 func (c *c17) Cases(tier string, seed int64) []core.Case {
 	var cs []core.Case
 	r := core.Rng("C17", tier, seed)
-	n := map[string]int{"quick": 48, "thorough": 600}[tier]
+	n := map[string]int{"quick": 48, "thorough": 2000}[tier]
 	for i := 0; i < n; i++ {
 		f := "par2"
 		if i%4 == 3 {
